@@ -72,13 +72,15 @@ def program(fns, consts=None, structs=None):
     return {"structs": structs or [], "consts": consts or [], "fns": fns}
 
 
-def run_programs(programs, layouts, seed, tag, split=False):
+def run_programs(programs, layouts, seed, tag, split=False, second_every=4):
     """-> list of result records {i, source, results:[{layout, stdout, exit | rejected, diags | crash | lli}]}
-    split: one more variant per program, marked {"split": true}: the declarations split over lib.pn and main.pn"""
+    split: one more variant per program, marked {"split": true}: the declarations split over lib.pn and main.pn
+    second_every: every n-th program gets one more variant, marked {"second_module": true}: the canonical text compiled as
+    the SECOND module of a compilation (pvh::alpha::PREMODULE first); it is judged like any other layout"""
     inp = os.path.join(common.WORK, "%s-%d-programs.ndjson" % (tag, os.getpid()))
     out = os.path.join(common.WORK, "%s-%d-results.ndjson" % (tag, os.getpid()))
     common.write_ndjson(inp, programs)
-    common.pvh(["run", inp, out, layouts, seed], exe_name="pvh_machine", timeout=7200, env=None if split else {"PVH_NO_SPLIT": "1"})
+    common.pvh(["run", inp, out, layouts, seed], exe_name="pvh_machine", timeout=7200, env=dict({} if split else {"PVH_NO_SPLIT": "1"}, **({"PVH_SECOND_EVERY": str(second_every)} if second_every else {})))
     res = common.read_ndjson(out)
     if len(res) != len(programs):
         raise common.ToolError("pvh_machine returned %d results for %d programs" % (len(res), len(programs)))
